@@ -160,6 +160,9 @@ func genC15Prog(rng *rand.Rand, bodyLen int, minor int) c15Prog {
 	if rng.Intn(4) == 0 {
 		p.ops = append(p.ops, c15Op{kind: "h", k: fmt.Sprintf("X-R%d", rng.Intn(3)), v: fmt.Sprintf("r%d", rng.Intn(100))})
 	}
+	if rng.Intn(5) == 0 { // a field with two values (Set, then Add): they stay two values
+		p.ops = append(p.ops, c15Op{kind: "h", k: "X-Multi", v: fmt.Sprintf("m%d", rng.Intn(100))}, c15Op{kind: "a", k: "X-Multi", v: fmt.Sprintf("n%d, q=1", rng.Intn(100))})
+	}
 	switch framing {
 	case 0:
 		p.ops = append(p.ops, c15Op{kind: "h", k: "Content-Length", v: fmt.Sprint(total)})
@@ -190,6 +193,8 @@ func (p c15Prog) String() string {
 		switch o.kind {
 		case "h":
 			parts = append(parts, fmt.Sprintf("h:%s:%s", hexS(o.k), hexS(o.v)))
+		case "a":
+			parts = append(parts, fmt.Sprintf("a:%s:%s", hexS(o.k), hexS(o.v)))
 		case "s":
 			parts = append(parts, fmt.Sprintf("s:%d", o.code))
 		case "w":
@@ -280,6 +285,8 @@ func runC15(seed int64, count int) {
 				switch o.kind {
 				case "h":
 					w.Header().Set(o.k, o.v)
+				case "a":
+					w.Header().Add(o.k, o.v)
 				case "s":
 					w.WriteHeader(o.code)
 				case "w":
